@@ -78,6 +78,61 @@ def eol_variants():
     return out
 
 
+def random_documents(seed, n):
+    """n pseudo-random documents (deterministic in seed) composed from the directive variants: random order, blank lines and comments in between, widened / tabbed
+    separators outside strings, inline comments, other indentation widths, a multi-line string, unusual numbers, LF / CRLF, with or without final newline.
+    Not every result is a sentence of the grammar; consumers skip what the parser rejects."""
+    import random, re
+    rnd = random.Random(seed)
+    pool = [v for vs in DIRECTIVES.values() for v in vs] + [
+        '2000-02-01 * "multi\nline" "x\\"y"\n    Assets:Foo  1,000.50 USD\n    Assets:Bar  -1,000.50 USD\n',
+        '2000-02-02 balance Assets:Foo -.5 USD\n', '2000-02-03 price USD 1.2e0 EUR\n' , '2000-02-04 note Assets:Foo "tab\there"\n',
+        '* org heading\n', '2000-02-05 *\n    Assets:Foo  1 USD @ 2 EUR\n    Assets:Bar  -2 EUR {{}}\n    ; trailing posting comment\n']
+    out = []
+    for i in range(n):
+        parts = []
+        for _ in range(rnd.randint(1, 4)):
+            d = rnd.choice(pool)
+            # widen single blanks outside strings
+            segs = d.split('"')
+            for j in range(0, len(segs), 2):
+                segs[j] = re.sub(r'(?<=\S) (?=\S)', lambda m_: rnd.choice([' ', ' ', '  ', '\t', ' \t ']), segs[j])
+            d = '"'.join(segs)
+            if rnd.random() < 0.3: d = d.replace('\n    ', '\n' + rnd.choice(['  ', '\t', '      ']))
+            if rnd.random() < 0.25 and '\n' in d and '"' not in d.split('\n')[0][-1:]:
+                first, rest = d.split('\n', 1)
+                if ';' not in first and not first.startswith('*'): d = first + rnd.choice([' ; ic', '  ;ic', ' ;']) + '\n' + rest
+            parts.append(d)
+            r = rnd.random()
+            if r < 0.25: parts.append('\n')
+            elif r < 0.4: parts.append('; c%d\n' % i)
+            elif r < 0.5: parts.append('\n; c%d\n\n' % i)
+        text = ''.join(parts)
+        r = rnd.random()
+        if r < 0.25: text = text.replace('\n', '\r\n')
+        if rnd.random() < 0.25: text = text.rstrip('\r\n')
+        out.append((f'rand{seed}-{i}', text))
+    return out
+
+
+def lookup(name):
+    """text of a document by name, for replays: corpus, line-ending variant (name~tag) or random (rand<seed>-<i>)"""
+    if name.startswith('rand'):
+        sd = int(name[4:].split('-')[0]); return dict(random_documents(sd, 1500))[name]
+    if '~' in name: return dict(eol_variants())[name]
+    return dict(documents())[name]
+
+
+def accepted_extras(parse, seed, n):
+    """line-ending variants and n random documents that `parse` accepts (used to widen the input side of the document drivers)"""
+    out = []
+    for name, text in eol_variants() + random_documents(seed, n):
+        try: parse(text)
+        except Exception: continue
+        out.append((name, text))
+    return out
+
+
 def small_documents():
     """a handful of documents used for the expensive (history) drivers"""
     d = dict(documents())
